@@ -133,6 +133,26 @@ partial def itemOfJson (j : Json) : Except String V1Compile.Item := do
     pure (.branches (← bs.toList.mapM items))
   | t => throw s!"bad item tag {t}"
 
+def atomOfJson (j : Json) : Except String Expand.Atom := do
+  let a ← j.getArr?
+  let k ← match (a[0]?.getD Json.null) with
+    | .str "ev" => pure Expand.AtomK.ev
+    | .str "flow" => pure Expand.AtomK.flow
+    | .str "action" => pure Expand.AtomK.action
+    | _ => throw "bad atom kind"
+  let r ← (a[1]?.getD Json.null).getBool?
+  pure { k := k, ref := r }
+
+def dnfOfJson (j : Json) : Except String Expand.DNF := do
+  let cs ← j.getArr?
+  cs.toList.mapM fun c => do
+    let as ← c.getArr?
+    as.toList.mapM atomOfJson
+
+def natListJ (j : Json) : Except String (List Nat) := do
+  let a ← j.getArr?
+  a.toList.mapM fun x => x.getNat?
+
 partial def stmtOfJson (j : Json) : Except String Expand.Stmt := do
   let a ← j.getArr?
   let tag ← (a[0]?.getD Json.null).getStr?
@@ -151,6 +171,20 @@ partial def stmtOfJson (j : Json) : Except String Expand.Stmt := do
   | "continue" => pure .cont
   | "if" => pure (.ifS (← stmts (arg 1)) (← stmts (arg 2)))
   | "while" => pure (.whileS (← stmts (arg 1)))
+  | "matchg" => pure (.matchG (← natListJ (arg 1)))
+  | "sendg" => pure (.sendG (← natListJ (arg 1)))
+  | "start" => pure (.startS (← dnfOfJson (arg 1)))
+  | "await1" => do
+    let a ← atomOfJson (Json.arr #[arg 1, Json.bool false])
+    pure (.awaitOne a.k (← (arg 2).getBool?))
+  | "awaitg" => pure (.awaitG (← dnfOfJson (arg 1)))
+  | "activate" => pure (.activateS (← (arg 1).getNat?))
+  | "deactivate" => pure (.deactivateS (← (arg 1).getNat?))
+  | "nld" => pure .nld
+  | "when" => do
+    let specs ← (arg 1).getArr?
+    let thens ← (arg 2).getArr?
+    pure (.whenS (← specs.toList.mapM dnfOfJson) (← thens.toList.mapM stmts) (← stmts (arg 3)) (← (arg 4).getBool?))
   | t => throw s!"bad stmt tag {t}"
 
 def optNatJ : Option Nat → Json
@@ -183,6 +217,12 @@ def handle (op : String) (j : Json) : Except String Json := do
     let ss ← a.toList.mapM stmtOfJson
     let p := Expand.expandFlow ss
     pure (Json.mkObj [("prog", Json.arr (p.map primToJson).toArray), ("closed", Closed.closed p)])
+  | "pathsafe" =>
+    -- the proved path-level checker on a real primitive program
+    let a ← (← j.getObjVal? "prog").getArr?
+    let p ← a.toList.mapM primOfJson
+    let S := Closed.explore p 6000 [Closed.startHead] [Closed.startHead]
+    pure (Json.mkObj [("safe", Closed.closedUnder p S), ("states", Json.num (JsonNumber.fromNat S.length))])
   | "witness" =>
     -- the witness program of the open finding 2.x:scope-reopened (Theorems/C12.lean)
     pure (Json.mkObj [("prog", Json.arr (Closed.whenElseInLoop.map (primToJsonWith id)).toArray)])
